@@ -293,7 +293,11 @@ CLAIMED["C05"] = {
     "text": "Proof (derived, over the C01/C02/C15 contracts) that after "
     "nested_sampling_loop the number of returned samples is iterations + "
     "nlive for a finished run and iterations for a run cut short by the "
-    "cap, their likelihoods ascend, recorded == integrated, the reported "
+    "cap (which reports the running estimator of exactly those samples: "
+    "ghost `ghost_refined` of the evidence state -- set by "
+    "_NSIntegralState.finalise, required false by increment, false "
+    "between iterations and for a run cut short), their likelihoods "
+    "ascend, recorded == integrated, the reported "
     "log-evidence is the trapezoid quadrature of exactly those likelihoods "
     "with the live-count schedule (nlive,...,nlive, nlive..1) that "
     "compute_weights assumes (C02 + Lean rec_unique link the two "
